@@ -3,6 +3,7 @@
   (guard facts and the successor state, explicitly).  Used by the invariant proofs.
 -/
 import Golib.Tcp.Model
+import Golib.Queue.Thms
 
 namespace Tcp
 
@@ -38,7 +39,8 @@ theorem step_connectFail {t : Nat} (h : step cfg bytesOf s (.connectFail t) = so
 
 theorem step_writeBegin {t : Nat} (h : step cfg bytesOf s (.writeBegin t) = some s') :
     ∃ sid w, s.pc t = .made sid ∧ s.wr = some w ∧ s.conn ≠ none ∧ s.err.get w = false ∧
-      s' = { s with log := s.log.set w (s.log.get w ++ [sid]), pend := s.pend.set w (bytesOf sid) }.setPc t
+      s' = { s with log := s.log.set w (s.log.get w ++ [sid]), pend := s.pend.set w (bytesOf sid),
+                    deadline := s.deadline.set w (if cfg.rearm = true then s.now + s.timeout else s.deadline.get w) }.setPc t
             (.writing sid w (bytesOf sid)) := by
   simp only [step] at h
   split at h
@@ -84,7 +86,7 @@ theorem step_autoFlush {t k : Nat} (h : step cfg bytesOf s (.autoFlush t k) = so
   split at h
   · next sid w rest hp =>
     split at h
-    · next hg => exact ⟨sid, w, rest, hp, hg, (Option.some.inj h).symm⟩
+    · next hg => exact ⟨sid, w, rest, hp, hg.1, (Option.some.inj h).symm⟩
     · cases h
   · cases h
 
@@ -101,18 +103,18 @@ theorem step_autoFlushErr {t k : Nat} (h : step cfg bytesOf s (.autoFlushErr t k
 
 theorem step_flushOk {t : Nat} (h : step cfg bytesOf s (.flushOk t) = some s') :
     ∃ sid w0 w, s.pc t = .wrote sid w0 ∧ s.wr = some w ∧ s.err.get w = false ∧
-      s' = (s.push w (s.buf.get w).length).finish t sid true := by
+      s' = ((s.push w (s.buf.get w).length).finish t sid true).procRel cfg.procLocked t := by
   simp only [step] at h
   split at h
   · next sid w0 w hp hw =>
     split at h
-    · next hg => exact ⟨sid, w0, w, hp, hw, hg, (Option.some.inj h).symm⟩
+    · next hg => exact ⟨sid, w0, w, hp, hw, hg.1, (Option.some.inj h).symm⟩
     · cases h
   · cases h
 
 theorem step_flushErr {t k : Nat} (h : step cfg bytesOf s (.flushErr t k) = some s') :
     ∃ sid w0 w, s.pc t = .wrote sid w0 ∧ s.wr = some w ∧ k ≤ (s.buf.get w).length ∧
-      s' = ((s.push w k).setErr w).finish t sid false := by
+      s' = (((s.push w k).setErr w).finish t sid false).procRel cfg.procLocked t := by
   simp only [step] at h
   split at h
   · next sid w0 w hp hw =>
@@ -130,42 +132,84 @@ theorem step_close {t : Nat} (h : step cfg bytesOf s (.close t) = some s') :
   · cases h
 
 theorem step_flushAfterFail (h : step cfg bytesOf s .flushAfterFail = some s') :
-    ∃ sid, s.pc 0 = .afterFail sid ∧ s' = s.setPc 0 .idle := by
+    ∃ sid, s.pc 0 = .afterFail sid ∧ s' = (s.setPc 0 .idle).procRel cfg.procLocked 0 := by
   simp only [step] at h
   split at h
   · next sid hp => exact ⟨sid, hp, (Option.some.inj h).symm⟩
   · cases h
 
 theorem step_unlock {t : Nat} (h : step cfg bytesOf s (.unlock t) = some s') :
-    ∃ sid ok, s.pc t = .done sid ok ∧
+    ∃ sid ok, s.pc t = .done sid ok ∧ t ≠ 0 ∧
       s' = { s with lock := none, results := (sid, ok) :: s.results }.setPc t .idle := by
   simp only [step] at h
   split at h
-  · next sid ok hp => exact ⟨sid, ok, hp, (Option.some.inj h).symm⟩
+  · next sid ok hp =>
+    split at h
+    · next h0 => exact ⟨sid, ok, hp, h0, (Option.some.inj h).symm⟩
+    · cases h
   · cases h
 
+theorem queue_put_true {q : Queue.Q} {x : Nat} (h : (Queue.step q (.put x)).2.1 = .bool true) :
+    q.room = true ∧ (Queue.step q (.put x)).1.items = q.items ++ [x] := by
+  cases hr : q.room with
+  | true => simp [Queue.step, hr]
+  | false => simp [Queue.step, hr] at h
+
+theorem queue_put_false {q : Queue.Q} {x : Nat} (h : (Queue.step q (.put x)).2.1 = .bool false) :
+    q.room = false ∧ (Queue.step q (.put x)).1.items = q.items := by
+  cases hr : q.room with
+  | true => simp [Queue.step, hr] at h
+  | false => simp [Queue.step, hr]
+
+/-- Put accepted: by C11's queue model there was room and the element went to the back -/
 theorem step_enqueue {t sid : Nat} (h : step cfg bytesOf s (.enqueue t sid) = some s') :
-    (t ≠ 0 ∧ cfg.useQueue = true ∧ s.pc t = .idle ∧ sid = s.nsid ∧ (cfg.cap = 0 ∨ s.queue.length < cfg.cap)) ∧
+    (t ≠ 0 ∧ cfg.useQueue = true ∧ s.pc t = .idle ∧ sid = s.nsid ∧ s.q.room = true) ∧
     s' = { s with queue := s.queue ++ [sid], nsid := s.nsid + 1, handed := s.handed ++ [sid],
                   results := (sid, true) :: s.results } := by
   simp only [step] at h
   split at h
-  · next hg => exact ⟨hg, (Option.some.inj h).symm⟩
+  · next hg =>
+    obtain ⟨h1, h2, h3, h4, h5⟩ := hg
+    obtain ⟨hr, hi⟩ := queue_put_true h5
+    refine ⟨⟨h1, h2, h3, h4, hr⟩, ?_⟩
+    rw [← Option.some.inj h, hi]; rfl
   · cases h
 
+/-- Put refused: by C11's queue model the queue was full, and it is unchanged -/
 theorem step_enqueueFail {t sid : Nat} (h : step cfg bytesOf s (.enqueueFail t sid) = some s') :
-    (t ≠ 0 ∧ cfg.useQueue = true ∧ s.pc t = .idle ∧ sid = s.nsid) ∧
+    (t ≠ 0 ∧ cfg.useQueue = true ∧ s.pc t = .idle ∧ sid = s.nsid ∧ s.q.room = false) ∧
     s' = { s with nsid := s.nsid + 1, results := (sid, false) :: s.results } := by
   simp only [step] at h
   split at h
-  · next hg => exact ⟨hg, (Option.some.inj h).symm⟩
+  · next hg =>
+    obtain ⟨h1, h2, h3, h4, h5⟩ := hg
+    obtain ⟨hr, hi⟩ := queue_put_false h5
+    refine ⟨⟨h1, h2, h3, h4, hr⟩, ?_⟩
+    rw [← Option.some.inj h, hi]; rfl
   · cases h
 
+theorem queue_getNoWait_val {q : Queue.Q} {x : Nat} (h : (Queue.step q .getNoWait).2.1 = .val x) (hx : x ≠ 0) :
+    ∃ r, q.items = x :: r ∧ (Queue.step q .getNoWait).1.items = r := by
+  cases hq : q.items with
+  | nil => simp [Queue.step, hq] at h; exact absurd h.symm hx
+  | cons y r =>
+    simp [Queue.step, hq] at h
+    subst h
+    exact ⟨r, rfl, by simp [Queue.step, hq]⟩
+
+/-- GetTimeout returned an element: by C11's queue model it was the head -/
 theorem step_dequeue (h : step cfg bytesOf s .dequeue = some s') :
-    ∃ sid q, s.pc 0 = .idle ∧ s.queue = sid :: q ∧ s' = { s with queue := q }.setPc 0 (.made sid) := by
+    ∃ sid q, s.pc 0 = .idle ∧ s.queue = sid :: q ∧ sid ≠ 0 ∧ (cfg.procLocked = true → s.lock = none) ∧
+      s' = { s with queue := q, lock := if cfg.procLocked = true then some 0 else s.lock }.setPc 0 (.made sid) := by
   simp only [step] at h
   split at h
-  · next sid q hp hq => exact ⟨sid, q, hp, hq, (Option.some.inj h).symm⟩
+  · next sid hp hq =>
+    split at h
+    · next hg =>
+      obtain ⟨r, h1, h2⟩ := queue_getNoWait_val hq hg.1
+      refine ⟨sid, r, hp, h1, hg.1, hg.2, ?_⟩
+      rw [← Option.some.inj h, h2]
+    · cases h
   · cases h
 
 theorem step_bgConnectOk (h : step cfg bytesOf s .bgConnectOk = some s') :
@@ -205,6 +249,45 @@ theorem step_bgDialFail (h : step cfg bytesOf s .bgDialFail = some s') :
 
 theorem step_peerClose {c n : Nat} (h : step cfg bytesOf s (.peerClose c n) = some s') :
     (s.cut.get c = none ∧ n ≤ (s.sentRev.get c).length) ∧ s' = { s with cut := s.cut.set c (some n) } := by
+  simp only [step] at h
+  split at h
+  · next hg => exact ⟨hg, (Option.some.inj h).symm⟩
+  · cases h
+
+theorem step_setCapacity {c : Int} (h : step cfg bytesOf s (.setCapacity c) = some s') :
+    s' = { s with qcap := c } := by
+  simp only [step] at h
+  exact (Option.some.inj h).symm
+
+theorem step_setTimeout {n : Nat} (h : step cfg bytesOf s (.setTimeout n) = some s') :
+    s' = { s with timeout := n } := by
+  simp only [step] at h
+  exact (Option.some.inj h).symm
+
+theorem step_tick {d : Nat} (h : step cfg bytesOf s (.tick d) = some s') :
+    s' = { s with now := s.now + d } := by
+  simp only [step] at h
+  exact (Option.some.inj h).symm
+
+theorem step_reconfClose {t : Nat} (h : step cfg bytesOf s (.reconfClose t) = some s') :
+    (t ≠ 0 ∧ s.pc t = .idle ∧ (cfg.acLocked = true → s.lock = none)) ∧
+    s' = { s with conn := none, lock := if cfg.acLocked = true then some t else s.lock }.setPc t .reconf := by
+  simp only [step] at h
+  split at h
+  · next hg => exact ⟨hg, (Option.some.inj h).symm⟩
+  · cases h
+
+theorem step_reconfDialOk {t : Nat} (h : step cfg bytesOf s (.reconfDialOk t) = some s') :
+    s.pc t = .reconf ∧
+    s' = { s.connectNew with lock := if cfg.acLocked = true then none else s.lock }.setPc t .idle := by
+  simp only [step] at h
+  split at h
+  · next hg => exact ⟨hg, (Option.some.inj h).symm⟩
+  · cases h
+
+theorem step_reconfDialFail {t : Nat} (h : step cfg bytesOf s (.reconfDialFail t) = some s') :
+    s.pc t = .reconf ∧
+    s' = { s with lock := if cfg.acLocked = true then none else s.lock }.setPc t .idle := by
   simp only [step] at h
   split at h
   · next hg => exact ⟨hg, (Option.some.inj h).symm⟩
